@@ -86,6 +86,7 @@ Section Slicer.
 
   (** a whole input chunk: pieces partition it, sizes bounded, spaced by at least delay *)
   Theorem slicer_chunk_through ps now draws (c : chunk) fuel :
+    avg < two63 -> zlen (cdata c) < two63 ->
     0 < zlen (cdata c) ->
     let s := fst (on_input tx ps now draws (Some c) (Idle 0 None)) in
     let r := stage_emit tx ps now fuel None s in
@@ -93,8 +94,8 @@ Section Slicer.
     Forall (fun e => 0 < zlen (snd e) <= avg + var) (fst (fst r)) /\
     gaps_ok D (map fst (fst (fst r))).
   Proof.
-    intros Hlen s r.
-    assert (Hok : attrs_ok tx) by exact Hguard.
+    intros Havg Hbig Hlen s r.
+    assert (Hok : attrs_ok tx) by exact I.
     destruct (on_input tx ps now draws (Some c) (Idle 0 None)) as [s0 ds] eqn:Hin.
     destruct (on_input_contract tx ps now draws (Some c) 0 None s0 ds Hok I I Hin) as [Hw Hk].
     simpl in Hk. subst s r. simpl fst.
@@ -103,7 +104,7 @@ Section Slicer.
     (* sized: from the chunk specification *)
     simpl in Hin.
     destruct (slicer_chunk_spec (S (Z.to_nat (zlen (cdata c)))) avg var 0 (zlen (cdata c)) draws Hguard
-               (zlen_nonneg _) ltac:(lia)) as (os & d2 & Ec & Hcov & Hpw).
+               Havg ltac:(lia) Hbig (zlen_nonneg _) ltac:(lia)) as (os & d2 & Ec & Hcov & Hpw).
     rewrite Ec in Hin. inversion Hin; subst s0 ds.
     assert (Hsz : sized (avg + var) (slicer_next c os 0 (zlen (cdata c)))).
     { apply slicer_next_sized; [unfold slicer_cov; split; [exact Hcov|lia]|apply Hpw; lia]. }
@@ -130,12 +131,12 @@ Lemma c12_send_not_interruptible (c : chunk) k now : on_interrupt now (Send c k)
 Proof. reflexivity. Qed.
 
 (** interrupt at any piece boundary: emitted ++ remainder = input (no loss, no duplication) *)
-Lemma c12_stream_exact avg var delay (Hg : 0 <= var < avg) ps now draws (c : chunk) fuel intr_at :
+Lemma c12_stream_exact avg var delay ps now draws (c : chunk) fuel intr_at :
   let s := fst (on_input (TSlicer avg var delay) ps now draws (Some c) (Idle 0 None)) in
   let r := stage_emit (TSlicer avg var delay) ps now fuel intr_at s in
   emitted r ++ held (final_st r) = cdata c.
 Proof.
-  intros s r. assert (Hok : attrs_ok (TSlicer avg var delay)) by exact Hg.
+  intros s r. assert (Hok : attrs_ok (TSlicer avg var delay)) by exact I.
   destruct (on_input (TSlicer avg var delay) ps now draws (Some c) (Idle 0 None)) as [s0 ds] eqn:Hin.
   destruct (on_input_contract _ ps now draws (Some c) 0 None s0 ds Hok I I Hin) as [Hw Hk].
   simpl in Hk. subst s r. simpl fst.
